@@ -164,12 +164,6 @@ def run(ctx):
         tag = B.peel(r.a[1][1]) if r.op == "call" else None
         ok = ok and tag is not None and tag.op == "assoc" and tag.a[0] == "BlsElGamal::ENC_DST"
         ctx.ob("E5.generator", mg.key, ok, "H = PublicKeyHasher::hash_to_point(to_bytes(G), ENC_DST): %s" % show(r, 4), where=where(mg))
-    consts = collect_constants(P)
-    for key, wantv in pinned["own_tags"].items():
-        impl, item = key.split("/")
-        tr, name = item.split("::")
-        got = [c for c in consts if c["impl"] == impl and c["trait"] == tr and c["name"] == name]
-        ctx.ob("E1.enc_dst", key, bool(got) and got[0]["str"] == wantv, "`%s` = %r (pinned %r: tag names the key group)" % (key, got[0]["str"] if got else None, wantv))
     # field-wise homomorphism
     adds = [f for f in P.fns.values() if f.impl_trait in ("Add", "AddAssign") and "ElGamalCiphertext" in (f.impl_self or "") and f.name in ("add", "add_assign")]
     ctx.floor("E6.homomorphic", "Add/AddAssign impls of ElGamalCiphertext", len(adds), 6)
